@@ -1520,6 +1520,32 @@ fn case_c12(rng: &mut Rng, w: &W, out: &mut impl Write) {
         let n = rng.range(1, 10);
         (0..n).map(|_| gen_fragment(rng, w, cols, rows)).collect()
     };
+    let mut s = s;
+    if rng.chance(20) {
+        // a CSI sequence the parser ignores (a private marker after digits, a parameter byte after an
+        // intermediate) - long enough to be cut inside
+        let body = match rng.below(3) {
+            0 => format!("1;2{}3;4", *rng.pick(&['?', '<', '=', '>'])),
+            1 => format!("5{}6;7", *rng.pick(&['$', ' ', '!'])),
+            _ => format!("?1{}2;3", *rng.pick(&['?', '>'])),
+        };
+        let at = rng.below(s.chars().count() + 1);
+        let mut t: String = s.chars().take(at).collect();
+        t.push_str(&format!("\u{1b}[{}{}", body, *rng.pick(&['m', 'H', 'h', 'p', 'J'])));
+        t.extend(s.chars().skip(at));
+        s = t;
+    }
+    if rng.chance(30) {
+        // controls that act from inside any sequence (C0 executes in place, C1 / CAN / SUB abort it)
+        for _ in 0..rng.range(1, 3) {
+            let c = *rng.pick(&['\r', '\n', '\u{8}', '\t', '\u{e}', '\u{85}', '\u{84}', '\u{18}', '\u{1a}', '\u{8d}', '\u{7f}', 'é']);
+            let at = rng.below(s.chars().count() + 1);
+            let mut t: String = s.chars().take(at).collect();
+            t.push(c);
+            t.extend(s.chars().skip(at));
+            s = t;
+        }
+    }
     let chars: Vec<char> = s.chars().collect();
     writeln!(out, "S 0 {}", hex_encode(&s)).unwrap();
     // random split
